@@ -509,7 +509,14 @@ func (se *streamEnv) segsOf(v ssa.Value, at ssa.Instruction, depth int) []segmen
 					return nil
 				}
 				b, ok := c2.Call.Value.(*ssa.Builtin)
-				if !ok || b.Name() != "append" || len(c2.Call.Args) != 2 {
+				if !ok {
+					// a transparent helper that appends: what it returns
+					if r := resultOf(c2); r != ssa.Value(c2) {
+						return chain(r, d+1)
+					}
+					return nil
+				}
+				if b.Name() != "append" || len(c2.Call.Args) != 2 {
 					return nil
 				}
 				pre := chain(c2.Call.Args[0], d+1)
